@@ -188,6 +188,18 @@ def constraint_of(test_node, decided: bool, subject_texts: Set[str], binds=None,
                     if d == "all" and isinstance(elt.ops[0], ast.NotIn) and decided:
                         add("nofactor", lits)
                         return out
+                if lits is not None and ((d == "all" and decided) or (d == "any" and not decided)):
+                    # any other element test: it holds (all) / fails (any) for every literal of the sequence
+                    import copy
+
+                    for lit in lits:
+                        class _Sub(ast.NodeTransformer):
+                            def visit_Name(self, nm, _lit=lit):
+                                return ast.copy_location(ast.Constant(value=_lit), nm) if nm.id == var and isinstance(nm.ctx, ast.Load) else nm
+
+                        sub = ast.fix_missing_locations(_Sub().visit(copy.deepcopy(elt)))
+                        out.extend(constraint_of(sub, d == "all", subject_texts, binds, frame, defs))
+                    return out
     return out
 
 
